@@ -33,8 +33,12 @@ Definition accumulate (v : Z) (s : vst) : vst :=
   then mkv (v_dirty s) 1 v (v * v) v v (v_minr s) (v_maxr s) (v_avg s) (v_var s) (v_varm s)
   else mkv (v_dirty s) (v_count s + 1) (v_sum s + v) (v_sq s + v * v) (Z.min (v_min s) v) (Z.max (v_max s) v)
            (v_minr s) (v_maxr s) (v_avg s) (v_var s) (v_varm s).
-(* the loop body of sc_stats_compute1: it does not look at the dirty flag *)
+(* the loop body of sc_stats_compute1 (since repair F-C13a): a clean variable is skipped, a dirty one becomes the single sample sum_values *)
 Definition prep1 (s : vst) : vst :=
+  if v_dirty s =? 0 then s
+  else mkv (v_dirty s) 1 (v_sum s) (v_sum s * v_sum s) (v_sum s) (v_sum s) (v_minr s) (v_maxr s) (v_avg s) (v_var s) (v_varm s).
+(* regression guard: the loop body as it was BEFORE the repair - it did not look at the dirty flag *)
+Definition prep1_old (s : vst) : vst :=
   mkv (v_dirty s) 1 (v_sum s) (v_sum s * v_sum s) (v_sum s) (v_sum s) (v_minr s) (v_maxr s) (v_avg s) (v_var s) (v_varm s).
 
 (* naming part.  dup = what sc_strdup returns when a copy is requested *)
